@@ -115,16 +115,24 @@ def execute(spec):
     if r.get("harness_error"):
         return r
     picks = r.get("picks", [])
-    stats = {"runs": 1, "members": len(picks), "mode:" + spec["mode"]: 1, "events": r.get("n_events", 0)}
+    members = r.get("members", [])
+    stats = {"runs": 1, "members": len(members), "mode:" + spec["mode"]: 1, "events": r.get("n_events", 0)}
     n = len(fr)
     mass_ratio = max(m) / max(min(m), 1e-9)
     stats["mass_ratio_ge_10"] = 1 if mass_ratio >= 10 else 0
-    if not picks:
+    if not members:
         return {"harness_error": f"no member generated for {scaled_text!r}: {r.get('violations')}", "violations": []}
     # ---- interface ---------------------------------------------------------------------------
-    p0 = picks[0][0]
-    constant = all(len(p[0]) == len(p0) and all(abs(a - b) <= 1e-12 for a, b in zip(p[0], p0)) for p in picks)
-    if len(p0) != n:
+    observable = len(picks) == len(members)
+    p0 = picks[0][0] if picks else [float("nan")] * n
+    constant = observable and all(len(p[0]) == len(p0) and all(abs(a - b) <= 1e-12 for a, b in zip(p[0], p0)) for p in picks)
+    if not observable:
+        # the component pick is not a rng.choice with a probability vector: nothing to read at the interface; the realised
+        # shares of this run are judged instead (weak for few members, but an option that is never taken still shows)
+        stats["selection_not_observable"] = 1
+        spec = dict(spec)
+        spec["mode"] = "outcome"
+    elif len(p0) != n:
         viols.append({"property": "C14", "invariant": "selection_vector_shape", "msg": f"component pick over {len(p0)} options for {n} components",
                       "features": feats, "input": text})
     elif constant:
@@ -145,10 +153,10 @@ def execute(spec):
     if spec["mode"] == "outcome":
         def shares(rr):
             tot = [0.0] * n
-            for (p, i, comp, w) in rr["picks"]:
+            for (comp, w) in rr["members"]:
                 tot[comp] += w
             T = sum(tot)
-            return [t / T for t in tot], T, len(rr["picks"])
+            return [t / T for t in tot], T, len(rr["members"])
 
         sh, T, N = shares(r)
         sig = _sigma(q_ideal, m, N)
@@ -169,9 +177,9 @@ def execute(spec):
                               "msg": f"component {i}: declared mass fraction {fr[i]:.4f}, realised {sh[i]:.4f} and {sh2[i]:.4f} over {N} / {N2} members "
                                      f"(band {band[i]:.4f}); member masses {[round(x, 2) for x in m]}", "features": f2, "input": text})
     sig_h = hashlib.sha1(text.encode()).hexdigest()
-    nontrivial = len(set(round(x, 3) for x in m)) >= 2 and len(picks) >= 20
+    nontrivial = len(set(round(x, 3) for x in m)) >= 2 and len(members) >= 20
     sample = {"system": text, "declared_fractions": [round(x, 4) for x in fr], "member_masses": [round(x, 2) for x in m],
-              "selection_vector": [round(x, 4) for x in p0], "members": len(picks), "mode": spec["mode"]}
+              "selection_vector": [round(x, 4) for x in p0] if picks else None, "members": len(members), "mode": spec["mode"]}
     return {"violations": viols, "stats": stats, "sig": sig_h, "nontrivial": nontrivial, "sample": sample, "digest": r["digest"], "trace": None}
 
 
